@@ -105,10 +105,159 @@ CheckModel(e) ==
                          "spec", exp, "code", got>>)
              ELSE TRUE
 
+(********************* theorems evaluated on the OBSERVED values ************)
+ObsTotal(e, kk, o, u) == Total(ObsOf(e, kk, o, u))
+UsageTheorems(e) ==
+    LET T == Topo(e.T)
+        I == e.I
+        JU == {q \in T.jobs \X SeqSet(T.sysups) : q[1] \in JobsOfUJ(T, T.uj[q[2]])}
+        nh(j) == CeilDiv(I.job[j].dur, TICKS)
+        bad == {<<"occurrences-not-conserved", q[1], q[2]>> : q \in {x \in JU :
+                     ObsTotal(e, "occ", x[1], x[2]) # SeqSum(I.up[x[2]].vals, 1) * Multiplicity(T, T.uj[x[2]], x[1])}}
+          \cup {<<"occurrence-hours-not-conserved", q[1], q[2]>> : q \in {x \in JU :
+                     ObsTotal(e, "avg4", x[1], x[2]) # ObsTotal(e, "occ", x[1], x[2]) * I.job[x[1]].dur}}
+          \cup {<<"data-transferred-not-conserved", q[1], q[2]>> : q \in {x \in JU :
+                     I.job[x[1]].dt % nh(x[1]) = 0 /\
+                     ObsTotal(e, "dt", x[1], x[2]) # ObsTotal(e, "occ", x[1], x[2]) * I.job[x[1]].dt}}
+          \cup {<<"data-stored-not-conserved", q[1], q[2]>> : q \in {x \in JU :
+                     I.job[x[1]].ds % nh(x[1]) = 0 /\
+                     ObsTotal(e, "ds", x[1], x[2]) # ObsTotal(e, "occ", x[1], x[2]) * I.job[x[1]].ds}}
+          \cup {<<"journeys-in-parallel-not-conserved", u, "-">> : u \in {x \in SeqSet(T.sysups) :
+                     ObsTotal(e, "par4", x, "-") # SeqSum(I.up[x].vals, 1) * (UJDuration(T, I, T.uj[x]) \div 15)}}
+          \cup {<<"occurrence-before-first-start", q[1], q[2]>> : q \in {x \in JU :
+                     \E h \in DOMAIN ObsOf(e, "occ", x[1], x[2]) :
+                        ObsOf(e, "occ", x[1], x[2])[h] # 0 /\ h < I.up[x[2]].start - I.tz[T.country[x[2]]]}}
+    IN  IF e.raised = "none" /\ bad # {} THEN Fail(e, "usage-theorem", bad) ELSE TRUE
+
+SizingTheorems(e) ==
+    LET T == Topo(e.T)
+        I == e.I
+        svs == SysServers(T)
+        sts == SysStorages(T)
+        bad == {<<"instances-below-raw-need", v>> : v \in {x \in svs :
+                   \E h \in DOMAIN ObsOf(e, "raw480", x, "-") : Val(ObsOf(e, "nb480", x, "-"), h) < ObsOf(e, "raw480", x, "-")[h]}}
+          \cup {<<"serverless-not-raw", v>> : v \in {x \in svs : I.sv[x].type = "serverless" /\
+                   ~SameSeries(ObsOf(e, "nb480", x, "-"), ObsOf(e, "raw480", x, "-"))}}
+          \cup {<<"autoscaling-not-whole", v>> : v \in {x \in svs : I.sv[x].type = "autoscaling" /\
+                   \E h \in DOMAIN ObsOf(e, "nb480", x, "-") : ObsOf(e, "nb480", x, "-")[h] % 480 # 0}}
+          \cup {<<"on-premise-not-constant", v>> : v \in {x \in svs : I.sv[x].type = "on-premise" /\
+                   \E g, h \in DOMAIN ObsOf(e, "nb480", x, "-") : ObsOf(e, "nb480", x, "-")[g] # ObsOf(e, "nb480", x, "-")[h]}}
+          \cup {<<"fixed-count-not-honoured", v>> : v \in {x \in svs : I.sv[x].type = "on-premise" /\ I.sv[x].fixed > 0 /\
+                   \E h \in DOMAIN ObsOf(e, "nb480", x, "-") : ObsOf(e, "nb480", x, "-")[h] # I.sv[x].fixed * 480}}
+          \cup {<<"storage-does-not-cover-cumulative-need", t>> : t \in {x \in sts :
+                   \E h \in DOMAIN ObsOf(e, "sto_cum", x, "-") :
+                      ObsOf(e, "sto_cum", x, "-")[h] < 0 \/
+                      Val(ObsOf(e, "sto_nb", x, "-"), h) * I.st[x].cap < ObsOf(e, "sto_cum", x, "-")[h]}}
+          \cup {<<"active-above-provisioned", t>> : t \in {x \in sts :
+                   \E h \in DOMAIN ObsOf(e, "sto_active_cap", x, "-") :
+                      ObsOf(e, "sto_active_cap", x, "-")[h] > Val(ObsOf(e, "sto_nb", x, "-"), h) * I.st[x].cap}}
+          \cup {<<"storage-fixed-count-not-honoured", t>> : t \in {x \in sts : I.st[x].fixed > 0 /\
+                   \E h \in DOMAIN ObsOf(e, "sto_nb", x, "-") : ObsOf(e, "sto_nb", x, "-")[h] # I.st[x].fixed}}
+    IN  /\ IF e.raised = "none" /\ bad # {} THEN Fail(e, "sizing-theorem", bad) ELSE TRUE
+        /\ IF e.raised = "negative-storage" /\ \A j \in T.jobs : I.job[j].ds >= 0
+           THEN Fail(e, "deletion-free-model-rejected-for-negative-storage", <<>>) ELSE TRUE
+
+(* C02: the totals event carries, in mg, the hourly system total and each component the code summed *)
+TotalsCheck(e) ==
+    LET T == Topo(e.T)
+        want == {<<v, "fab">> : v \in SysServers(T)} \cup {<<v, "energy">> : v \in SysServers(T)}
+                \cup {<<t, "fab">> : t \in SysStorages(T)} \cup {<<t, "energy">> : t \in SysStorages(T)}
+                \cup {<<n, "energy">> : n \in SysNets(T)}
+                \cup {<<u, "fab">> : u \in SysUPs(T)} \cup {<<u, "energy">> : u \in SysUPs(T)}
+        got == [n \in DOMAIN e.comps |-> <<e.comps[n].o, e.comps[n].part>>]
+        tot == Ser(e.total)
+        sum == AddAll([n \in DOMAIN e.comps |-> Ser(e.comps[n])], DOMAIN e.comps)
+        slack == 60 + Len(e.comps)
+        cats == {"Servers", "Storage", "Network", "Devices"}
+        members(c) == CASE c = "Servers" -> SysServers(T) [] c = "Storage" -> SysStorages(T)
+                        [] c = "Network" -> SysNets(T) [] c = "Devices" -> SysUPs(T)
+    IN
+    /\ IF SeqSet(got) # want THEN Fail(e, "total-components-differ", <<"missing", want \ SeqSet(got), "extra", SeqSet(got) \ want>>) ELSE TRUE
+    /\ IF \E a, b \in DOMAIN got : a # b /\ got[a] = got[b] THEN Fail(e, "component-counted-twice", <<>>) ELSE TRUE
+    /\ IF \E h \in DOMAIN tot \cup DOMAIN sum : Abs(Val(tot, h) - Val(sum, h)) > slack
+       THEN Fail(e, "hourly-total-is-not-the-sum-of-components",
+                 CHOOSE h \in DOMAIN tot \cup DOMAIN sum : Abs(Val(tot, h) - Val(sum, h)) > slack) ELSE TRUE
+    /\ IF ~e.finite THEN Fail(e, "non-finite-footprint", e.nonfinite) ELSE TRUE
+    /\ IF e.negative # <<>> /\ \A j \in T.jobs : e.I.job[j].ds >= 0 THEN Fail(e, "negative-footprint-without-deletion", e.negative) ELSE TRUE
+    /\ \A c \in cats :
+         /\ IF SeqSet(e.views.energy_members[c]) # members(c) \/ (c # "Network" /\ SeqSet(e.views.fab_members[c]) # members(c))
+            THEN Fail(e, "per-object-view-lists-wrong-objects", c) ELSE TRUE
+         /\ LET parts == {n \in DOMAIN e.comps : e.comps[n].o \in members(c) /\ e.comps[n].part = "energy"}
+                 s == SumSet([n \in parts |-> Total(Ser(e.comps[n]))], parts)
+            IN  IF Abs(e.views.energy_sum[c] - s) > slack * (1 + Cardinality(DOMAIN tot)) \/
+                   Abs(e.views.energy_objects_sum[c] - s) > slack * (1 + Cardinality(DOMAIN tot))
+                THEN Fail(e, "per-category-energy-view-inconsistent", <<c, e.views.energy_sum[c], e.views.energy_objects_sum[c], s>>) ELSE TRUE
+         /\ LET parts == {n \in DOMAIN e.comps : e.comps[n].o \in members(c) /\ e.comps[n].part = "fab"}
+                 s == SumSet([n \in parts |-> Total(Ser(e.comps[n]))], parts)
+            IN  IF Abs(e.views.fab_sum[c] - s) > slack * (1 + Cardinality(DOMAIN tot)) \/
+                   Abs(e.views.fab_objects_sum[c] - s) > slack * (1 + Cardinality(DOMAIN tot))
+                THEN Fail(e, "per-category-fabrication-view-inconsistent", <<c, e.views.fab_sum[c], e.views.fab_objects_sum[c], s>>) ELSE TRUE
+
+(* C12: two systems that differ by one driver multiplied by e.k *)
+Driven(d) ==
+    CASE d = "pue" -> {"srv_energy480", "srv_efp480", "sto_energy_cap", "sto_efp_cap"}
+      [] d = "server-ci" -> {"srv_efp480", "sto_efp_cap"}
+      [] d = "bei" -> {"net_fp"}
+      [] d = "dt" -> {"dt", "dt_x", "net_fp"}
+      [] d = "country-ci" -> {"net_fp", "dev_efp4"}
+      [] d = "device-power" -> {"dev_energy4", "dev_efp4"}
+      [] d = "device-fabrate" -> {"dev_fab4"}
+      [] d = "device-lifespan-inv" -> {"dev_fab4"}
+      [] d = "device-usage-fraction-inv" -> {"dev_fab4"}
+      [] d = "server-fabrate" -> {"srv_fab480"}
+      [] d = "server-lifespan-inv" -> {"srv_fab480"}
+      [] d = "storage-fabrate" -> {"sto_fab"}
+      [] d = "storage-lifespan-inv" -> {"sto_fab"}
+      [] d = "traffic" -> {"utc", "par4", "dev_energy4", "dev_efp4", "dev_fab4", "occ", "avg4", "dt", "ds", "occ_x",
+                           "avg4_x", "dt_x", "ds_x", "net_fp", "ram_need4", "cpu_need4", "raw480"}
+(* Which observations depend on the multiplied inputs is decided by EFCore's Reads, not by the harness *)
+PairCheck(e) ==
+    LET T == Topo(e.T)
+        CI == {<<x[1], x[2], "-">> : x \in SeqSet(e.changed_inputs)}
+        aff == TrueAffected(T, T, CI)
+        e2 == [e EXCEPT !.obs = e.obs2]
+        serverless(o) == o \in T.servers /\ e.I.sv[o].type = "serverless"
+        mustScale(ob) == \/ ob.k \in Driven(e.driver)
+                         \/ (e.driver = "traffic" /\ serverless(ob.o) /\
+                             ob.k \in {"nb480", "srv_fab480", "srv_energy480", "srv_efp480"})
+        bad == {<<"not-multiplied-by-k", e.obs[n].k, e.obs[n].o, e.obs[n].u>> : n \in {m \in DOMAIN e.obs :
+                   <<e.obs[m].o, e.obs[m].a, e.obs[m].u>> \in aff /\ mustScale(e.obs[m]) /\
+                   ~SameSeries(Scale(Ser(e.obs[m]), e.k), ObsOf(e2, e.obs[m].k, e.obs[m].o, e.obs[m].u))}}
+          \cup {<<"changed-though-it-does-not-depend-on-the-driver", e.obs[n].k, e.obs[n].o, e.obs[n].u>> :
+                   n \in {m \in DOMAIN e.obs :
+                   <<e.obs[m].o, e.obs[m].a, e.obs[m].u>> \notin aff /\
+                   ~SameSeries(Ser(e.obs[m]), ObsOf(e2, e.obs[m].k, e.obs[m].o, e.obs[m].u))}}
+    IN  /\ IF bad # {} THEN Fail(e, "proportionality:" \o e.driver, bad) ELSE TRUE
+        /\ IF ~\E n \in DOMAIN e.obs : <<e.obs[n].o, e.obs[n].a, e.obs[n].u>> \in aff /\ mustScale(e.obs[n])
+           THEN PrintT("NOTE|" \o ToString(e.tid) \o "|" \o ToString(e.seq) \o "|vacuous-pair|" \o e.driver) ELSE TRUE
+
+(* C03 on a finer time lattice: direct calls of the two building blocks *)
+CallCheck(e) ==
+    CASE e.fn = "avg" ->
+           IF ~SameSeries(AvgOccT(Ser(e.arg), e.dur, e.tph), Ser(e.res))
+           THEN Fail(e, "call:compute_nb_avg_hourly_occurrences", <<e.dur, e.tph, "spec", AvgOccT(Ser(e.arg), e.dur, e.tph), "code", Ser(e.res)>>)
+           ELSE IF Total(Ser(e.res)) # Total(Ser(e.arg)) * e.dur
+           THEN Fail(e, "call:occurrence-hours-not-conserved", <<e.dur, e.tph>>) ELSE TRUE
+      [] e.fn = "shift" ->
+           IF ~SameSeries(Shift(Ser(e.arg), e.dur \div e.tph), Ser(e.res))
+           THEN Fail(e, "call:return_shifted_hourly_quantities", <<e.dur, e.tph, "spec", Shift(Ser(e.arg), e.dur \div e.tph), "code", Ser(e.res)>>)
+           ELSE TRUE
+
+(* C04 on arbitrary floats: only the qualitative clause can be compared *)
+FloatCheck(e) ==
+    IF ~e.deleting /\ e.raised = "negative-storage"
+    THEN Fail(e, "deletion-free-model-rejected-for-negative-storage", e.note) ELSE TRUE
+
 Step ==
     /\ i < N
     /\ i' = i + 1
-    /\ CheckModel(Events[i + 1])
+    /\ LET e == Events[i + 1] IN
+       CASE e.ev = "Model" -> CheckModel(e) /\ (IF "usage" \in SeqSet(e.theorems) THEN UsageTheorems(e) ELSE TRUE)
+                                           /\ (IF "sizing" \in SeqSet(e.theorems) THEN SizingTheorems(e) ELSE TRUE)
+         [] e.ev = "Totals" -> TotalsCheck(e)
+         [] e.ev = "Pair" -> PairCheck(e)
+         [] e.ev = "Call" -> CallCheck(e)
+         [] e.ev = "FloatModel" -> FloatCheck(e)
 
 Init == i = 0
 Next == Step
